@@ -143,7 +143,10 @@ func safely(f func() string) (res string) {
 // hold the fraction's read lock), so after a few of them the generators stop producing further cases.
 var hangs int32
 
-func tooManyHangs() bool { return atomic.LoadInt32(&hangs) >= 4 }
+func tooManyHangs() bool { return atomic.LoadInt32(&hangs) >= 3 }
+
+// newStage gives the next channel / oracle its own budget of hanging calls
+func newStage() { atomic.StoreInt32(&hangs, 0) }
 
 // within runs an implementation call with a time limit; "hang" is the observation when it does not come back.
 func within(d time.Duration, f func() string) string {
@@ -421,7 +424,10 @@ func (g gen) sublist(lo, hi uint32, pct int) []uint32 {
 // ---------------------------------------------------------------- channel: node package
 
 func nodeCase(ch *vh.Channel, op string, rev bool, xs, ys []uint32, lo, hi uint32, tags ...string) {
-	cap := len(xs) + len(ys) + int(hi) + 8
+	cap := len(xs) + len(ys) + 8 // more values than any correct node can yield
+	if hi >= lo {
+		cap += int(hi-lo) + 1
+	}
 	var n node.Node
 	var req string
 	switch op {
@@ -730,8 +736,11 @@ func chanEvalTree(o vh.Opts, g gen) *vh.Channel {
 			f.toks = append(f.toks, ftok{field: strconv.Itoa(j), lids: g.sublist(1, maxLid, g.r.Range(10, 90))})
 		}
 		ast := g.ast(g.r.Range(0, 5), func() *parser.ASTNode { return &parser.ASTNode{Value: &parser.Literal{Field: strconv.Itoa(g.r.Intn(nleaves))}} })
+		if tooManyHangs() {
+			break
+		}
 		var res []uint32
-		impl := safely(func() string {
+		impl := within(5*time.Second, func() string {
 			tree, err := processor.VerifC02BuildEvalTree(ast, lo, hi, rev, func(t parser.Token) (node.Node, error) {
 				j, _ := strconv.Atoi(parser.GetField(t))
 				order := seq.DocsOrderDesc
@@ -1275,7 +1284,7 @@ func (e *env) seal(a *frac.Active, base string) (preloaded, reopened *frac.Seale
 }
 
 func searchFrac(f frac.Fraction, ast *parser.ASTNode, w window) string {
-	return within(20*time.Second, func() string {
+	return within(10*time.Second, func() string {
 		dp, release := f.DataProvider(context.Background())
 		defer release()
 		return qprAnswer(dp.Search(processor.SearchParams{AST: ast, From: seq.MID(w.from), To: seq.MID(w.to), Limit: w.limit, WithTotal: w.withTotal, Order: w.order}))
@@ -1768,9 +1777,11 @@ func main() {
 			rep.AddChannel(chanBorders(o, gen{rng0.Fork()}), o.Driver)
 		}
 		if want("evaltree") {
+			newStage()
 			rep.AddChannel(chanEvalTree(o, gen{rng0.Fork()}), o.Driver)
 		}
 		if want("indexsearch") {
+			newStage()
 			rep.AddChannel(chanIndexSearch(o, gen{rng0.Fork()}), o.Driver)
 		}
 		if want("active.merge") {
@@ -1786,6 +1797,7 @@ func main() {
 			rep.AddChannel(chanActiveInverse(o, gen{rng0.Fork()}), o.Driver)
 		}
 		if want("search.system") && e != nil {
+			newStage()
 			g := gen{rng0.Fork()}
 			actCh = vh.NewChannel("active.search", "real frac.Active: arrival-order mids/rids read back from the fraction, token -> arrival LIDs, DataProvider.Search vs ActiveIndex.search (sort by (mid,rid,lid), inverser, inverseLIDs, window clamp, IndexSearch model); same corpora and queries as search.system; non-trivial = at least one id returned")
 			ncorp := o.Pick(250, 2500)
